@@ -131,7 +131,7 @@ Proof. intros A. exact SrcEqWrapVector.model_is_source_WrapVector_lemma. Qed.
 Check model_is_source_C15_WrapVector : forall A : Arith, @SrcEqWrapVector.model_is_source_WrapVector A.
 Print Assumptions model_is_source_C15_WrapVector.
 (* ---- gen/SrcVecCmplx.v: src/vector/vec_cmplx.rs (conj, real, norm_inf of Vector<Complex<T>>) regenerated on every check
-   run; Proofs/SrcEqVecCmplx.v proves conj / real equal to vconj / vreal of Model/Vector.v and norm_inf equal to the loop
+   run (+ Tridiagonal::<Complex<T>>::conj of src/tridiagonal.rs); Proofs/SrcEqVecCmplx.v proves conj / real equal to vconj / vreal of Model/Vector.v and norm_inf equal to the loop
    formulation Newton.norm_inf (NCplx F) that the Newton model calls. *)
 From OV Require Proofs.SrcEqVecCmplx.
 Theorem model_is_source_C15_VecCmplx : forall F : SArith, @SrcEqVecCmplx.model_is_source_VecCmplx F.
